@@ -102,6 +102,8 @@ pub mod parse;
 pub mod register_circuit;
 pub mod scan;
 pub mod token;
+#[cfg(feature = "verif_hooks")]
+pub mod verif_hooks;
 
 /// Scans, parses and type-checks a program.
 pub fn check(prg: &str) -> Result<TypedProgram, Error> {
